@@ -441,7 +441,11 @@ func (ex *Explorer) runPath(w *Worker, prefix []int) (in *Interp, res *PathResul
 			res.Kind, res.Msg = p.kind, p.msg
 			if p.kind == "assertfail" {
 				res.Label = p.msg
-				ex.recordViolation(in, "assert", p.msg, "assertion failed: "+p.msg, "")
+				label := p.msg
+				if in.failLabel != "" {
+					label = in.failLabel
+				}
+				ex.recordViolation(in, "assert", label, "assertion failed: "+p.msg, "")
 			}
 		case *goPanic:
 			res.Kind, res.Msg, res.Label = "panic", p.msg, p.site
@@ -524,7 +528,13 @@ func (in *Interp) modelDraws() []DrawValue {
 	for _, d := range in.draws {
 		syms = append(syms, d.Syms...)
 	}
-	r, m := in.model(nil, syms)
+	r, m := Unknown, map[string]uint64(nil)
+	if len(in.prefs) > 0 {
+		r, m = in.model(in.b.And(in.prefs...), syms)
+	}
+	if r != Sat {
+		r, m = in.model(nil, syms)
+	}
 	if r != Sat {
 		return nil
 	}
